@@ -79,8 +79,30 @@ func c06Gen(r *RNG, id string, prop string) *Case {
 	if r.Chance(1, 4) {
 		nt = r.Range(1, 6)
 	}
+	wide := prop == "C06" && r.Chance(1, 50)
+	if wide {
+		// an alignment wider than a genome: raw distances d/L and d/(L-1) differ by less than the nine printed decimals
+		// (1/50000 - 1/49999 ~ 4e-10), so "nearest" must be decided on the distances, not on what is printed
+		w, nq, nt = r.Range(40000, 60000), 1, r.Range(2, 4)
+		c.Tag("wide-near-tie")
+	}
 	base := randSeq(r, w, symACGT, false)
 	var qs, ts []string
+	if wide {
+		qs = append(qs, base)
+		for i := 0; i < nt; i++ {
+			b := []byte(base)
+			for d := r.PickInt([]int{1, 1, 1, 2}); d > 0; d-- {
+				j := r.Intn(w)
+				b[j] = r.Pick(strings.ReplaceAll(symACGT, string(base[j]), ""))
+			}
+			for m := r.Intn(4); m > 0; m-- { // the more N, the less complete and the fewer compared columns
+				b[r.Intn(w)] = 'N'
+			}
+			ts = append(ts, string(b))
+		}
+		nq, nt = 0, 0 // skip the ordinary loops
+	}
 	for i := 0; i < nq; i++ {
 		switch r.Intn(4) {
 		case 0:
@@ -117,12 +139,17 @@ func c06Gen(r *RNG, id string, prop string) *Case {
 			ts = append(ts, mutateSeq(r, base, symAmb, 1, 2, true))
 		}
 	}
-	if r.Chance(1, 6) { // the order-sensitive case: an all-N target first
+	if wide {
+		nq, nt = len(qs), len(ts)
+	} else if r.Chance(1, 6) { // the order-sensitive case: an all-N target first
 		ts[0] = strings.Repeat("N", w)
 		c.Tag("undefined")
 		c.Tag("undefined-first")
 	}
 	measure := r.PickStr([]string{"raw", "snp", "tn93"})
+	if wide {
+		measure = r.PickStr([]string{"raw", "raw", "snp"})
+	}
 	mode := r.PickStr([]string{"plain", "n", "n", "table"})
 	c.Set("measure", measure)
 	c.Set("qnames", strings.Join(randNames(r, nq, "Q"), ",")).Set("qseqs", strings.Join(qs, ","))
